@@ -226,7 +226,9 @@ func shapes(repo string) (string, error) {
 		}
 		fd := ex.FuncDecl(parsed[t.file], t.recv, t.fn)
 		if fd == nil || fd.Body == nil {
-			return "", fmt.Errorf("function %s.%s not found in %s", t.recv, t.fn, t.file)
+			// keep the fact file compiling (the driver imports it): the shape theorem rejects this list
+			s += fmt.Sprintf("def %s : List String := [%s]\n", t.lean, ex.LeanStr(fmt.Sprintf("function %s.%s not found in %s", t.recv, t.fn, t.file)))
+			continue
 		}
 		w := &walker{fset: fsets[t.file]}
 		recv := ""
